@@ -1,5 +1,5 @@
 (* one program per line, prefix encoding:
-   G sc <tgt> | T | B | C | U n | K m k.. | I nb .. ne .. | F r nb .. ne .. | W w nb .. | Z nb .. | M np p.. nb .. | A np p.. nk k.. nb .. | L nb ..
+   G sc <tgt> | T | B | C | U n | K m k.. | I nb .. ne .. | F r nb .. ne .. | W w nb .. | Z nb .. | M np p.. nb .. | A np p.. nu u.. nk k.. nb .. | L nb ..
    the line is:  <n> <stmt>*n       output:  E   or   <ok|bad> <facts...> *)
 open Pywf_x
 let rec pos_of_int n = if n = 1 then XH else if n land 1 = 0 then XO (pos_of_int (n lsr 1)) else XI (pos_of_int (n lsr 1))
@@ -28,7 +28,7 @@ and stmt () =
   | "W" -> let w = int () = 1 in SInline (w, stmts (int ()))
   | "Z" -> SSame (stmts (int ()))
   | "M" -> let ps = names (int ()) in SMacro (ps, stmts (int ()))
-  | "A" -> let ps = names (int ()) in let ks = names (int ()) in SCallBlock (ps, ks, stmts (int ()))
+  | "A" -> let ps = names (int ()) in let us = names (int ()) in let ks = names (int ()) in SCallBlock (ps, us, ks, stmts (int ()))
   | "L" -> SBlock (stmts (int ()))
   | t -> failwith ("bad token " ^ t)
 let toy n = if int_of_n n = 9 then n_of_int 8 else n
